@@ -15,6 +15,7 @@ import CookModel.Lemmas.ReportPrep
 import CookModel.Lemmas.FrontMatterDoc
 import CookModel.Lemmas.SpansDataEv
 import CookModel.Lemmas.SpansDataUnit
+import CookModel.Lemmas.RefCheck
 /-
   C04  Every reported source location is in bounds, on char boundaries, faithful.
 
@@ -1001,5 +1002,72 @@ theorem C04_holds_full : C04_statement_full :=
      (C04_retained_and_ast_full env input).2.2.2.2,
      C04_report_labels_prepared env input,
      (C04_report_prep_never_panics env input).1, (C04_report_prep_never_panics env input).2⟩⟩
+
+-- ===== w7reauditC =====
+/-! ### `ParseOptions::recipe_ref_check`: the label of "Referenced recipe not found"
+
+    Seed audit (notes/audit-C04.md): the callback options were not in the model, so the label the library attaches to
+    the callback's diagnostic was tied to nothing but the span oracle (seeded C04-10 computes it from the trimmed file
+    stem on the raw name span).  Model: Analysis/RefCheck.lean (`RC.refDiag`, `RC.afterIngredient`, `RC.loopR`,
+    `RC.parseRecipeR`), tied by the driver operation `recipe_rc`.  The callback is a parameter: its verdict on the
+    name, `chk : Str → FM.CheckRes`. -/
+
+/-- **Every label of the report of `parse_with_options` with a `recipe_ref_check` is a valid span of the input**
+    (inside the input, both ends on character boundaries, `start ≤ end`) — the diagnostics of the callback included —
+    and so is every location the returned collector keeps.  Every input, extension set, converter, callback. -/
+theorem C04_ref_check_labels_ok {α : Type} [Arith α] (env : Env) (chk : Option (Str → FM.CheckRes)) (input : Str) :
+    (∀ d ∈ (RC.parseRecipeR (α := α) env chk input).diags.toList, ∀ l ∈ d.labels, SpanOK 0 input l) ∧
+    (∀ c, (RC.parseRecipeR (α := α) env chk input).output = some c → ColOK input c) := by
+  cases chk with
+  | none => exact C04_analysis_labels_ok env input
+  | some f =>
+    exact RC.rck_loopR_spOK input env f _ {} (ColOK.init input) (C04_event_spans_ok env.cs env.ext input)
+
+/-- **The label IS the span of the ingredient component.**  After an `Ingredient` event the check leaves the
+    collector as `process` left it, or pushes exactly one diagnostic: stage analysis, kind "Referenced recipe not
+    found", severity the callback's verdict, and ONE label — the span of the whole component the event carries
+    (`@@name{…}` from the `@` to the closing brace or the last word), not a piece computed from the name. -/
+theorem C04_ref_check_label_is_component_span {α : Type} [Arith α] (chk : Str → FM.CheckRes)
+    (li : Loc (PIngredient α)) (s s' : Col α) :
+    RC.afterIngredient chk li s s' = s' ∨
+    ∃ sev, RC.afterIngredient chk li s s' =
+      { s' with diags := s'.diags.push ⟨sev, .analysis, "recipe-not-found", [li.span]⟩ } := by
+  rcases RC.rck_afterIngredient chk li s s' with h | ⟨d, ig, _, _, hd, h⟩
+  · exact .inl h
+  · obtain ⟨h1, h2, h3, _⟩ := RC.rck_refDiag_some chk li.span ig d hd
+    refine .inr ⟨d.sev, ?_⟩
+    rw [h]
+    cases d
+    simp only at h1 h2 h3
+    subst h1 h2 h3
+    rfl
+
+/-- **When the check reports**: exactly for an ingredient that carries the recipe modifier (`@@name`) and not the
+    reference modifier, when the callback's verdict on its final name (the file stem for a path name) is not `Ok`. -/
+theorem C04_ref_check_reports_iff {α : Type} [Arith α] (chk : Str → FM.CheckRes) (loc : Span)
+    (ig : Ingredient (ScalableValue α)) :
+    (RC.refDiag chk loc ig).isSome =
+      (ig.modifiers.contains Modifiers.RECIPE && !ig.modifiers.contains Modifiers.REF && chk ig.name != .ok) :=
+  RC.rck_refDiag_iff chk loc ig
+
+/-- a callback that answers `Ok` to every name is no callback: the result is the one of `parse` (so every theorem
+    about `parseRecipe` is about `parse_with_options` with such a callback, and without one) -/
+theorem C04_ref_check_all_ok_is_parse {α : Type} [Arith α] (env : Env) (input : Str) :
+    RC.parseRecipeR (α := α) env (some (fun _ => .ok)) input = parseRecipe env input ∧
+    RC.parseRecipeR (α := α) env none input = parseRecipe env input := by
+  refine ⟨?_, rfl⟩
+  have h : ∀ evs, RC.parseEventsR (α := α) env input (some (fun _ => .ok)) evs = parseEvents env input evs :=
+    fun evs => RC.rck_loopR_allOk env input evs {}
+  unfold RC.parseRecipeR parseRecipe
+  simp only [h]
+  rfl
+
+/-! non-vacuity: `@@pésto{}` at bytes 4..14, callback "Error for every name": the diagnostic and its label; the same
+    ingredient with the reference modifier as well (`@@&pésto{}`, bits 3) is not checked -/
+example : RC.refDiag (α := Rat) (fun _ => .error) ⟨4, 14⟩ ⟨"pésto".toList, none, none, none, none, default, ⟨1⟩⟩ =
+    some ⟨.error, .analysis, "recipe-not-found", [⟨4, 14⟩]⟩ := by decide
+example : RC.refDiag (α := Rat) (fun _ => .error) ⟨4, 15⟩ ⟨"pésto".toList, none, none, none, none, default, ⟨3⟩⟩ = none := by
+  decide
+-- ===== end w7reauditC =====
 
 end Cook
